@@ -66,7 +66,8 @@ fn polynomial_unbridge(x: Vec<BigIntBridge>) -> Polynomial<BigInt> {
     for elem in x {
         dat.push(elem.into());
     }
-    Polynomial { dat }
+    // Normalize: the leading coefficient must not be 0 (configs may end with zero coefficients).
+    Polynomial::from_raw(dat)
 }
 
 #[derive(Debug, Clone)]
